@@ -252,8 +252,24 @@ impl Exec {
                 A::Deliver => self.deliver(),
                 A::Stale => self.stale(),
                 A::Group => {
-                    let root = self.root.as_mut().unwrap();
-                    crate::group::do_op(&mut self.plan, root.as_mut());
+                    let r = catch_unwind(AssertUnwindSafe(|| {
+                        let root = self.root.as_mut().unwrap();
+                        crate::group::do_op(&mut self.plan, root.as_mut());
+                    }));
+                    if let Err(p) = r {
+                        let c = classify(p);
+                        with(|w| {
+                            w.in_group_op = false;
+                            w.emit(Ev::Caught { whence: "group operation: panic" });
+                            if let Caught::Other(m) = c {
+                                if PANIC_IS_VIOLATION.contains(&w.prop) {
+                                    w.flag_current("panic", || format!("a group operation (insert/remove/reserve/extend or a set-view query) panicked: {m}"));
+                                }
+                            }
+                        });
+                        self.drop_root();
+                        return;
+                    }
                 }
             }
         }
